@@ -153,6 +153,7 @@ def scn_simple():
                      attrs={"long_name": "Foo"})
     ns["c"] = c.assign_coords(xc=ds.xc, yc=ds.yc, depth=ds.depth)
     ns["cneg"] = (-ns["c"] * 3 + 1).rename("neg")
+    ns["co"] = xr.DataArray(((np.arange(2 * ny * (nx + 1)) * 5) % 13).astype(float).reshape(2, ny, nx + 1), dims=["t", "yc", "xo"], name="onouter")
     ns["u"] = xr.DataArray(np.arange(ny * nx).reshape(ny, nx) * 1.0 + 1, dims=["yc", "xl"], name="u")
     ns["v"] = xr.DataArray(-np.arange(ny * nx).reshape(ny, nx) * 2.0 - 1, dims=["yl", "xc"], name="v")
     ns["vec"] = {"X": ns["u"]}
@@ -173,6 +174,10 @@ def scn_simple():
     ops["min_y_bmap"] = lambda n: n["g"].min(n["c"], "Y", boundary=n["bmap"])
     ops["min_y_neg"] = lambda n: n["g"].min(n["cneg"], "Y", boundary=n["bmap"])
     ops["max_x_outer"] = lambda n: n["g"].max(n["c"], "X", to="outer", boundary="fill", fill_value=n["fmap"])
+    # shifts that need no padding: the operator works on the caller's own buffer unless it is copied
+    ops["min_from_outer"] = lambda n: n["g"].min(n["co"], "X", to="center")
+    ops["max_from_outer"] = lambda n: n["g"].max(n["co"], ["X", "Y"], to={"X": "center", "Y": "left"}, boundary=n["bmap"])
+    ops["diff_from_outer"] = lambda n: n["g"].diff(n["co"], "X")
     ops["cumsum_x_maps"] = lambda n: n["g"].cumsum(n["c"], "X", to=n["tomap"], boundary=n["bmap"], fill_value=n["fmap"])
     ops["cumsum_yx"] = lambda n: n["g"].cumsum(n["c"], ["Y", "X"], boundary="fill")
     ops["pad_maps"] = lambda n: pad(n["c"], n["g"], n["bw"], boundary=n["bmap"], fill_value=n["fmap"])
